@@ -366,7 +366,8 @@ func fnGetBit(ctx *cmdContext, args map[string]any) (output respValue, err error
 	keyName := args["key"].(string)
 	bit64 := args["offset"].(int64)
 
-	if bit64 < 0 {
+	if bit64 < 0 || bit64 >= 4*1024*1024*1024 {
+		// offsets address at most 512 MiB of string
 		output.data = respErrorString("ERR bit offset is not an integer or out of range")
 		return
 	}
@@ -399,7 +400,8 @@ func fnSetBit(ctx *cmdContext, args map[string]any) (output respValue, err error
 	offset64 := args["offset"].(int64)
 	value64 := args["value"].(int64)
 
-	if offset64 < 0 {
+	if offset64 < 0 || offset64 >= 4*1024*1024*1024 {
+		// offsets address at most 512 MiB of string
 		output.data = respErrorString("ERR bit offset is not an integer or out of range")
 		return
 	}
